@@ -943,6 +943,7 @@ def _guarded(ctx, fn):
         raise
     except Exception as e:
         ctx.aborted = ("exception", type(e).__name__, str(e)[:300], traceback.format_exc()[-1500:])
+        ctx.emit("run_raised", ctx.tree, e)
 
 
 def run_reuse_pair(desc: dict, make_monitors, second_seed_offset=7, same_np_seed=False):
@@ -959,7 +960,12 @@ def run_reuse_pair(desc: dict, make_monitors, second_seed_offset=7, same_np_seed
 
             def first():
                 holder["cfg"] = build_config(desc, ctx1)
-                tree = DemeTree(holder["cfg"])
+                cfg1 = holder["cfg"]
+                if desc.get("first_tree_root_only") and len(cfg1.levels) >= 2:
+                    # the first tree uses the same stop-condition / mechanism / root-level objects on a *lower* tree (root level only)
+                    cfg1 = TreeConfig(cfg1.levels[:1], cfg1.gsc, cfg1.sprout_mechanism, options=dict(desc.get("options", {})), config_class_to_deme_class=cfg1.config_class_to_deme_class)
+                    ctx1.cov["first_tree_of_a_reuse_pair_built_from_the_root_level_only"] += 1
+                tree = DemeTree(cfg1)
                 ctx1.emit("tree_ready", tree)
                 tree.run()
                 ctx1.emit("run_end", tree)
